@@ -333,6 +333,8 @@ def concrete_case(pattern, folders, opts, witness, names=None):
         layout["packpos"] = len(gap)
     if opts.get("packcrc"):
         layout["packcrc"] = True
+        if opts.get("packcrc_defined"):
+            layout["packcrc_defined"] = list(opts["packcrc_defined"])
         k, layout["packcrcs"] = 0, []
         for n in folders:
             layout["packcrcs"].append(zlib.crc32(b"".join(datas[k:k + n])))
